@@ -502,6 +502,13 @@ func (p *pool) add(d *V, family string) *item {
 		it.a = d.build(p.c)
 		it.b = d.build(p.c)
 	})
+	if fault != "" && d.any(func(x *V) bool { return x.K == "TName" }, func(*T) bool { return false }) {
+		// deriving a typed name from another one (Child, Parent, RelativeTo) is the second construction route of an
+		// equal value: the derived cached form is the subject
+		p.res.Violate(lib.Violation{Clause: "fault", What: fmt.Sprintf("making %s by its construction route escapes with a runtime fault: %s", d, fault),
+			Input: map[string]interface{}{"kind": "values", "clause": "fault", "vs": []*V{d}}, Tags: tagsOf(d)})
+		return nil
+	}
 	if fault != "" || err != "" {
 		// constructing is not the subject of C07 (C05/C06/C16 are)
 		p.res.Count("skipped.constructor-rejects")
@@ -601,6 +608,17 @@ func buildPool(c px.Context, cfg *lib.Config, res *lib.Result, rng *lib.Rng) *po
 	}
 	for _, d := range outsideFamily() {
 		p.add(d, "outside-model")
+	}
+	for _, s := range typeSetTexts() {
+		p.add(vType(tText(s)), "type-parsed")
+	}
+	// kinds with a derived cached form by their construction routes (names.go)
+	for _, d := range namedFamily(cfg.Thorough()) {
+		if d.hasRoute() {
+			p.addRouted(d, "named-route")
+		} else {
+			p.add(d, "named")
+		}
 	}
 	// the same values made by other construction routes (routes.go)
 	for _, d := range routeFamily(append(scalarFamily(), containerFamily()...), cfg.Thorough()) {
